@@ -229,6 +229,12 @@ func init() {
 		return nil
 	}
 	intrinsics["(*"+strings.TrimSuffix(P, ".")+".Encoder).Encode"] = func(e *Engine, f *frame, a []Value) Value {
+		// a harness may observe what is handed to the encoder: func vOnEncode(v interface{}) in the package under test
+		if fn := e.pkg.Func("vOnEncode"); fn != nil {
+			e.used("ion.Encoder.Encode (reflection) = value handed to the harness callback vOnEncode, returns nil")
+			e.call(fn, []Value{a[1]}, nil)
+			return nilIface
+		}
 		e.used("ion.Encoder.Encode (reflection) = returns nil")
 		return nilIface
 	}
@@ -237,6 +243,10 @@ func init() {
 		return e.strConst("<value>")
 	}
 
+	intrinsics["internal/bytealg.MakeNoZero"] = func(e *Engine, f *frame, a []Value) Value {
+		n := e.concInt(e.term(a[0]), true, "MakeNoZero len", 0, int64(e.allocLimit), nil)
+		return &SliceV{arr: e.newArraySlot(types.Typ[types.Byte], n), len: n, cap: n}
+	}
 	// assembly in internal/bytealg
 	intrinsics["internal/bytealg.IndexByteString"] = func(e *Engine, f *frame, a []Value) Value {
 		return e.indexByte(a[0].(*StrV).b, e.term(a[1]))
